@@ -103,6 +103,12 @@ def draw_cover(rng, keys, vals, mbn, embs=C.API_EMBS):
         c["kenc"] = [kenc, kenc2]
     c["kcont"] = rng.pick(["np", "np", "series"])
     c["mcont"] = rng.pick(["np", "series"])
+    # the property holds under every execution strategy: some draws run threaded / on chunk-wise factorized keys
+    if rng.random() < 0.25:
+        c["R"] = rng.pick([1, 2])
+    if (not two and n >= 2 and rng.random() < 0.25 and mask["k"] != "pos" and not (mask["k"] == "slice" and mask["s"][2] not in (-997, 1))
+            and not (kenc == "str" and k1[0] == NULL) and kenc not in ("cat", "catperm")):
+        c["T"] = 2 if n < 6 else rng.pick([2, 4])
     return c
 
 
